@@ -25,7 +25,9 @@ The interpreter follows (generally, not for one patch):
   * renamed locals, temporaries introduced or inlined, repeated sub-expressions computed once,
     reordering of statements without data dependence (evaluation is by environment, the writes to an
     array are kept with the path condition and loop they occur under);
-  * `for i in range(len(xs))` with `xs[i]` vs `for i, x in enumerate(xs)`.
+  * every counting loop form over one canonical 0-based counter: range(a, b, +-1), enumerate(it, start),
+    zip, itertools.count, reversed(range), `for x in xs`; `continue`; private helpers imported from other
+    modules of the package; simple module-level constants by value; dict()/list(); string formatting.
 It REFUSES (raises Unsupported, a broken tie): statements outside the subset, loop-carried local
 variables, writes through views, calls with side effects it does not know, recursion.
 
@@ -193,6 +195,10 @@ def mk_not(t):
     return ("not", t)
 
 
+def _boolish(v):
+    return isinstance(v, tuple) and len(v) > 0 and v[0] in ("bool", "and", "or", "not", "cmp", "isnone")
+
+
 def mk_cond(t, a, b):
     if t == TRUE:
         return a
@@ -208,6 +214,15 @@ def mk_cond(t, a, b):
             and a[3] == b:
         # nested ifs with the same alternative == one if with the merged condition
         return mk_cond(mk_and(t, a[1]), a[2], b)
+    if _boolish(a) and _boolish(b) and (a in (TRUE, FALSE) or b in (TRUE, FALSE)):
+        # a conditional between truth values is a connective
+        if b == FALSE:
+            return mk_and(t, a)
+        if b == TRUE:
+            return mk_or(mk_not(t), a)
+        if a == FALSE:
+            return mk_and(mk_not(t), b)
+        return mk_or(t, b)
     if isinstance(a, tuple) and isinstance(b, tuple) and a and b and a[0] == b[0] == "tuple" \
             and len(a) == len(b):
         # a conditional pair is the pair of the conditionals
@@ -222,7 +237,8 @@ def mk_cond(t, a, b):
 class World:
     """the parsed modules: where functions and classes live"""
 
-    def __init__(self, mods, alias):
+    def __init__(self, mods, alias, repo=None):
+        self.repo = repo
         self.mods = mods                       # name -> ast.Module
         self.alias = alias                     # dotted module name -> name
         self.funcs = {}                        # (modname, fname) -> FunctionDef
@@ -240,6 +256,54 @@ class World:
                 elif isinstance(n, ast.ImportFrom):
                     for a in n.names:
                         self.imports[mn][a.asname or a.name] = (alias.get(n.module, n.module), a.name)
+
+    def constant(self, mn, name):
+        """the literal a module binds `name` to at top level, exactly once (else None); also through a
+        `from module import name` of a parsed module"""
+        if name in self.imports.get(mn, {}):
+            src, nm = self.imports[mn][name]
+            if nm.startswith("_") or nm.isupper():
+                self.load_private(src, None)
+            return self.constant(src, nm) if src in self.mods and src != mn else None
+        m = self.mods.get(mn)
+        if m is None:
+            return None
+        hits = [n for n in ast.walk(m) if isinstance(n, (ast.Assign, ast.AugAssign, ast.AnnAssign))
+                and any(isinstance(a, ast.Name) and a.id == name and isinstance(a.ctx, ast.Store)
+                        for t in (n.targets if isinstance(n, ast.Assign) else [n.target]) for a in ast.walk(t))]
+        top = [n for n in m.body if isinstance(n, ast.Assign) and len(n.targets) == 1
+               and isinstance(n.targets[0], ast.Name) and n.targets[0].id == name]
+        if len(hits) != 1 or len(top) != 1 or hits[0] is not top[0]:
+            return None
+
+        def literal(x):
+            return isinstance(x, ast.Constant) or (isinstance(x, (ast.Tuple, ast.List))
+                                                   and all(literal(y) for y in x.elts)) \
+                or (isinstance(x, ast.UnaryOp) and isinstance(x.op, ast.USub) and literal(x.operand)) \
+                or (isinstance(x, ast.Name) and x.id != name and self.constant(mn, x.id) is not None)
+        return top[0].value if literal(top[0].value) else None
+
+    def load_private(self, dotted, name):
+        """a PRIVATE helper imported from another module of the package is followed there (public
+        functions, e.g. the validation API, stay opaque: their contract is trusted)"""
+        if name is not None and not name.startswith("_"):
+            return
+        if dotted in self.mods or self.repo is None or not dotted.startswith("sktime"):
+            return
+        base = os.path.join(self.repo, *dotted.split("."))
+        for path in (base + ".py", os.path.join(base, "__init__.py")):
+            if os.path.exists(path):
+                with open(path) as f:
+                    m = ast.parse(f.read())
+                self.mods[dotted] = m
+                self.imports[dotted] = {}
+                for n in m.body:
+                    if isinstance(n, ast.FunctionDef):
+                        self.funcs[(dotted, n.name)] = n
+                    elif isinstance(n, ast.ImportFrom) and n.module:
+                        for a in n.names:
+                            self.imports[dotted][a.asname or a.name] = (self.alias.get(n.module, n.module), a.name)
+                return
 
     def mro(self, cname):
         """left-to-right depth-first linearisation over the classes we can see (the hierarchies here
@@ -344,6 +408,9 @@ class Interp:
             if v == ("undef",):
                 raise Unsupported("name %s is not bound on every path" % e.id)
             return v
+        c = self.w.constant(self.modname, e.id)
+        if c is not None:
+            return self.ev(c, {})      # a simple module-level constant, by value
         return ("name", e.id)
 
     def ev_Attribute(self, e, env):
@@ -372,6 +439,9 @@ class Interp:
 
     def ev_BinOp(self, e, env):
         a, b = self.ev(e.left, env), self.ev(e.right, env)
+        if isinstance(e.op, (ast.Add, ast.Mod)) and (_is(a, "str") or _is(a, "fstr") or
+                                                     (isinstance(e.op, ast.Add) and (_is(b, "str") or _is(b, "fstr")))):
+            return ("fstr",)           # "..." % x, "..." + s: a formatted message
         if isinstance(e.op, (ast.Add, ast.Sub)):
             return self.atomise(a, e).add(self.atomise(b, e), 1 if isinstance(e.op, ast.Add) else -1)
         if isinstance(e.op, ast.Mult):
@@ -463,6 +533,11 @@ class Interp:
             k = ix[0][1].c
             if -(len(b) - 1) <= k < len(b) - 1:
                 return b[1:][k]
+        if _is(b, "range", 4) and len(ix) == 1 and ix[0][0] == "at" and isinstance(ix[0][1], Lin) \
+                and ix[0][1].is_const() and ix[0][1].c >= 0:
+            n = self.range_len(b)
+            if n.is_const() and ix[0][1].c < n.c:
+                return b[1].add(lin(b[3] * ix[0][1].c))     # element of a range of known length
         if isinstance(b, Arr):
             return ("sub", b, ix, len(b.writes))
         return ("sub", b, ix, 0)
@@ -505,6 +580,23 @@ class Interp:
                 if k.arg in kw:
                     raise Unsupported("duplicate keyword " + k.arg)
                 kw[k.arg] = v
+        if fu == "range" and not kw and 1 <= len(args) <= 3:
+            a3 = [self.atomise(a, e) for a in args]
+            start, stop = (lin(0), a3[0]) if len(a3) == 1 else a3[:2]
+            step = a3[2] if len(a3) == 3 else lin(1)
+            if not step.is_const() or step.c == 0:
+                raise Unsupported("range step: " + _u(e))
+            return ("range", start, stop, step.c)
+        if fu in ("count", "itertools.count") and not kw and len(args) <= 2:
+            a2 = [self.atomise(a, e) for a in args]
+            step = a2[1] if len(a2) == 2 else lin(1)
+            if not step.is_const():
+                raise Unsupported("count step: " + _u(e))
+            return ("count", a2[0] if a2 else lin(0), step.c)
+        if fu == "dict" and not args:
+            return ("dict",) + tuple(kw.items())
+        if fu in ("list", "tuple") and not args and not kw:
+            return (fu,)
         if fu == "slice" and not kw and 1 <= len(args) <= 2:
             lo, hi = (None, args[0]) if len(args) == 1 else args
             lo = None if lo is None or lo == NONE else self.atomise(lo, e)
@@ -524,6 +616,8 @@ class Interp:
         if fu == "len" and len(args) == 1 and not kw:
             if isinstance(args[0], Arr):
                 return args[0].shape[0]
+            if _is(args[0], "range", 4):
+                return self.range_len(args[0])
             return lin(("len", args[0]))
         # functions of this file / imported helpers
         if isinstance(f, ast.Name):
@@ -532,6 +626,7 @@ class Interp:
                 tgt = (self.modname, f.id)
             elif f.id in self.w.imports[self.modname]:
                 src, nm = self.w.imports[self.modname][f.id]
+                self.w.load_private(src, nm)
                 if (src, nm) in self.w.funcs:
                     tgt = (src, nm)
             if tgt and f.id not in self.opaque_funcs:
@@ -555,6 +650,8 @@ class Interp:
                     recv.appends.append((tuple(self.guards), tuple(self.loops), args[0]))
                     return NONE
                 raise Unsupported("list method: " + _u(e))
+            if (_is(recv, "str") or _is(recv, "fstr")) and f.attr == "format":
+                return ("fstr",)
             if isinstance(recv, Arr) and f.attr not in ("reshape", "ravel", "copy"):
                 raise Unsupported("method of a tracked array: " + _u(e))
             if f.attr in self.assume_true and recv != ("name", "np"):
@@ -650,7 +747,18 @@ class Interp:
         if isinstance(tgt, ast.Name):
             env[tgt.id] = v
             self.mark(tgt.id)
-        elif isinstance(tgt, ast.Tuple):
+        elif isinstance(tgt, (ast.Tuple, ast.List)) and any(isinstance(x, ast.Starred) for x in tgt.elts):
+            stars = [i for i, x in enumerate(tgt.elts) if isinstance(x, ast.Starred)]
+            if len(stars) != 1 or not (_is(v, "tuple") or _is(v, "list")) or len(v) - 1 < len(tgt.elts) - 1:
+                raise Unsupported("star-unpacking of something that is not a tuple of known length: " + _u(node))
+            k, items = stars[0], list(v[1:])
+            after = len(tgt.elts) - k - 1
+            for t, p in zip(tgt.elts[:k], items[:k]):
+                self.assign(t, p, env, node)
+            self.assign(tgt.elts[k].value, ("list",) + tuple(items[k:len(items) - after]), env, node)
+            for t, p in zip(tgt.elts[k + 1:], items[len(items) - after:]):
+                self.assign(t, p, env, node)
+        elif isinstance(tgt, (ast.Tuple, ast.List)):
             n = len(tgt.elts)
             if isinstance(v, tuple) and v and v[0] == "tuple" and len(v) - 1 == n:
                 parts = v[1:]
@@ -707,7 +815,7 @@ class Interp:
                 if isinstance(r, Ret):
                     return Ret(_fold(items + new, r.v))
                 new += r.items
-                if new and self.stack_loops_open():
+                if any(v != CONTINUE for _, v in new) and self.stack_loops_open():
                     raise Unsupported("return / raise / a call that may raise inside a loop: " + _u(st)[:60])
                 for t, _ in new:
                     self.guards.append(mk_not(t))
@@ -765,6 +873,8 @@ class Interp:
             return _NOTHING
         if isinstance(st, ast.Pass):
             return _NOTHING
+        if isinstance(st, ast.Continue):
+            return Ret(CONTINUE)       # leaves the iteration: what follows in the body runs otherwise
         raise Unsupported("statement %s: %s" % (type(st).__name__, _u(st)[:80]))
 
     def stack_loops_open(self):
@@ -824,57 +934,80 @@ class Interp:
         except Exception:
             return False
 
+    def iterable(self, e, env, lv):
+        """(element at the 0-based position lv, number of elements or None when unbounded) of an
+        iterable expression: range / itertools.count / enumerate / zip / reversed(range) / any indexable
+        value.  Every counting form is expressed over the same canonical 0-based counter."""
+        L = lin(lv)
+        if isinstance(e, ast.Call) and _u(e.func) == "enumerate" and len(e.args) + len(e.keywords) <= 2 \
+                and e.args and all(k.arg == "start" for k in e.keywords):
+            el, n = self.iterable(e.args[0], env, lv)
+            st = e.args[1] if len(e.args) == 2 else e.keywords[0].value if e.keywords else None
+            start = self.atomise(self.ev(st, env), e) if st is not None else lin(0)
+            return ("tuple", L.add(start), el), n
+        if isinstance(e, ast.Call) and isinstance(e.func, (ast.Name, ast.Attribute)) and not e.keywords:
+            fu = _u(e.func)
+            if fu == "zip" and e.args:
+                parts = [self.iterable(a, env, lv) for a in e.args]
+                ns = [n for _, n in parts if n is not None]
+                if not ns or any(n != ns[0] for n in ns):
+                    raise Unsupported("zip of iterables whose lengths are not the same expression: " + _u(e))
+                return ("tuple",) + tuple(el for el, _ in parts), ns[0]
+            if fu == "reversed" and len(e.args) == 1:
+                v = self.ev(e.args[0], env)
+                if _is(v, "range", 4):
+                    n = self.range_len(v)
+                    return v[1].add(n.add(lin(1), -1).scale(v[3])).add(L.scale(-v[3])), n
+                raise Unsupported("reversed of something that is not a range: " + _u(e))
+        v = self.ev(e, env)
+        if _is(v, "range", 4):
+            return v[1].add(L.scale(v[3])), self.range_len(v)
+        if _is(v, "count", 3):
+            return v[1].add(L.scale(v[2])), None
+        if isinstance(v, (Arr, ListObj)) or _is(v, "raise") or isinstance(v, Lin):
+            raise Unsupported("iteration over " + _u(e))
+        return ("sub", v, (("at", L),), 0), lin(("len", v))
+
+    @staticmethod
+    def range_len(v):
+        if v[3] == 1:
+            return v[2].add(v[1], -1)
+        if v[3] == -1:
+            return v[1].add(v[2], -1)
+        raise Unsupported("range with a step other than 1 / -1")
+
     def for_(self, st, env):
         if st.orelse:
             raise Unsupported("for/else")
-        it = st.iter
-        if not (isinstance(it, ast.Call) and isinstance(it.func, ast.Name) and not it.keywords):
-            raise Unsupported("loop over " + _u(it))
         self.nloop += 1
         lv = ("loop", self.nloop)
-        if it.func.id == "range" and len(it.args) == 1 and isinstance(st.target, ast.Name):
-            bound = self.atomise(self.ev(it.args[0], env), it)
-            binds = {st.target.id: lin(lv)}
-        elif it.func.id == "enumerate" and len(it.args) == 1 and isinstance(st.target, ast.Tuple) \
-                and len(st.target.elts) == 2 and all(isinstance(x, ast.Name) for x in st.target.elts):
-            seq = self.ev(it.args[0], env)
-            bound = lin(("len", seq))
-            binds = {st.target.elts[0].id: lin(lv),
-                     st.target.elts[1].id: ("sub", seq, (("at", lin(lv)),), 0)}
-        elif it.func.id == "zip" and len(it.args) == 2 and isinstance(st.target, ast.Tuple) \
-                and len(st.target.elts) == 2 and all(isinstance(x, ast.Name) for x in st.target.elts) \
-                and isinstance(it.args[0], ast.Call) and _u(it.args[0].func) == "range" \
-                and len(it.args[0].args) == 1 and not it.args[0].keywords:
-            # zip(range(n), xs): the shorter of the two; we need n == len(xs) to call it one loop
-            seq = self.ev(it.args[1], env)
-            bound = self.atomise(self.ev(it.args[0].args[0], env), it)
-            if bound != lin(("len", seq)):
-                raise Unsupported("zip of a range and a sequence of another length: " + _u(it))
-            binds = {st.target.elts[0].id: lin(lv),
-                     st.target.elts[1].id: ("sub", seq, (("at", lin(lv)),), 0)}
-        else:
-            raise Unsupported("loop header: " + _u(st.target) + " in " + _u(it))
+        el, bound = self.iterable(st.iter, env, lv)
+        if bound is None:
+            raise Unsupported("unbounded loop: " + _u(st.iter))
         assigned = set()
         for n in ast.walk(ast.Module(body=st.body, type_ignores=[])):
             if isinstance(n, ast.Name) and isinstance(n.ctx, ast.Store):
                 assigned.add(n.id)
-            if isinstance(n, (ast.Break, ast.Continue, ast.While, ast.Return, ast.Raise, ast.Try,
-                              ast.With)):
+            if isinstance(n, (ast.Break, ast.While, ast.Return, ast.Raise, ast.Try, ast.With)):
                 raise Unsupported("%s inside a loop" % type(n).__name__)
-        assigned -= set(binds)
+        bound_names = {n.id for n in ast.walk(st.target) if isinstance(n, ast.Name)}
+        assigned -= bound_names
         benv = dict(env)
-        benv.update(binds)
         self.loops.append((lv, bound))
         self.loopsets.append((assigned, set()))
         try:
+            self.assign(st.target, el, benv, st)
             r = self.block(st.body, benv)
         finally:
             self.loops.pop()
             self.loopsets.pop()
-        if isinstance(r, Ret) or r.items:
+        if (isinstance(r, Ret) and r.v != CONTINUE) or any(v != CONTINUE for _, v in getattr(r, "items", [])):
             raise Unsupported("return inside a loop")
-        for n in assigned | set(binds):
+        for n in assigned | bound_names:
             env[n] = ("undef",)
+
+
+CONTINUE = ("continue",)
 
 
 class Ret:
@@ -1382,8 +1515,6 @@ def _predicts(world, defs, fname):
     _need(len(fits) == 1 and not [e for e in it.effects if e[0] == "predict"],
           "dirrec fit: one estimator.fit in the loop")
     _, g, lp, v = fits[0]
-    _need(len(lp) == 1 and lp[0][1] in (lin(q),), "dirrec fit: loop over range(len(self.fh))", lp)
-    iv = lp[0][0]
     est = v[1]
     _need(est == ("call", ("name", "clone"), (("attr", SELF, "estimator"),), ()),
           "dirrec fit: a fresh clone of self.estimator per step", est)
@@ -1396,6 +1527,15 @@ def _predicts(world, defs, fname):
     xt0 = ("sub", swt, (("at", lin(1)),), 0)
     xt = ("cond", _tab_cmp_self(), NP("expand_dims", xt0, axis=lin(1)), xt0)
     full = NP("concatenate", ("list", xt, NP("expand_dims", yt, axis=lin(1))), axis=lin(2))
+    # yt has one column per entry of the horizon handed to the transform (checked in _swt: yt =
+    # Zt[:, 0, wl + indexer]), i.e. len(self.fh) columns: iterating over the rows of yt.T is the loop
+    # over range(len(self.fh)), and yt.T[i] is yt[:, i]
+    ytT = ("attr", yt, "T")
+    _need(len(lp) == 1 and lp[0][1] in (lin(q), lin(("len", ytT))),
+          "dirrec fit: one step per entry of self.fh / per target column", lp)
+    iv = lp[0][0]
+    if tgt == ("sub", ytT, (("at", lin(iv)),), 0):
+        tgt = ("sub", yt, (FULL, ("at", lin(iv))), 0)
     _need(tgt == ("sub", yt, (FULL, ("at", lin(iv))), 0), "dirrec fit: target yt[:, i]", tgt)
     _need(_is(Xf, "cond", 4) and _tab_self(Xf[1]), "dirrec fit: tabular reshape of X_fit", Xf)
     sl = Xf[3]
@@ -1502,7 +1642,7 @@ def _world(repo):
     world = World(mods, {"sktime.forecasting.base._sktime": "sktime_base",
                          "sktime.forecasting.base._base": "fbase",
                          "sktime.utils.datetime": "datetime",
-                         "sktime.forecasting.compose._reduce": "reduce"})
+                         "sktime.forecasting.compose._reduce": "reduce"}, repo=repo)
     return world
 
 
